@@ -78,7 +78,18 @@ func (wrapper EpochsHooksWrapper) AfterEpochEnd(
 				// must not be dereferenced (this hook runs in BeginBlock, where a panic halts the chain).
 				continue
 			}
-			diff := types.Difference(taskInfo.OptInOperators, signedOperatorList)
+			// the non-signers are the opted-in operators without an accepted result. the symmetric
+			// difference also listed a signer from outside the opt-in snapshot as a non-signer.
+			signed := make(map[string]struct{}, len(signedOperatorList))
+			for _, operator := range signedOperatorList {
+				signed[operator] = struct{}{}
+			}
+			diff := make([]string, 0, len(taskInfo.OptInOperators))
+			for _, operator := range taskInfo.OptInOperators {
+				if _, ok := signed[operator]; !ok {
+					diff = append(diff, operator)
+				}
+			}
 			taskInfo.SignedOperators = signedOperatorList
 			taskInfo.NoSignedOperators = diff
 			taskInfo.OperatorActivePower = &types.OperatorActivePowerList{OperatorPowerList: operatorPowers}
